@@ -17,6 +17,7 @@ import Mamba.Drv.C11
 import Mamba.Drv.C12
 import Mamba.Drv.C15
 import Mamba.Drv.C01
+import Mamba.Drv.C01F
 import Mamba.Drv.C02
 
 namespace Drv
@@ -71,8 +72,12 @@ def dispatch (line : String) : String :=
   | "canon2" :: args => C01.handleCanon2 args
   | "aut" :: args => C02.handleAut args
   | "autx" :: _ => "skip"
+  | "histx" :: _ => "skip"
   | "hist" :: args => C02.handleHist args
   | "autchk" :: args => C02.handleChk args
+  | "canonf" :: args => C01F.handleCanonF args
+  | "canonfv" :: args => C01F.handleCanonFV args
+  | "histf" :: args => C01F.handleHistF args
   | _ => "bad-op"
 
 end Drv
